@@ -182,7 +182,8 @@ def survival_target(draw, n, ties=True):
 @st.composite
 def partition(draw, p, contiguous=None, max_groups=6):
     """a partition of range(p) into groups (list of lists), non-contiguous in general."""
-    ng = draw(st.integers(1, min(p, max_groups)))
+    kmax = min(p, max_groups)
+    ng = draw(st.sampled_from([1] + [k for k in range(2, kmax + 1) for _ in range(3)]))   # a single group is the rare case
     contiguous = draw(st.booleans()) if contiguous is None else contiguous
     order = list(range(p)) if contiguous else list(draw(st.permutations(list(range(p)))))
     if ng == 1:
